@@ -602,4 +602,157 @@ def fmtNamed (name sig short tmpl : List Char) : List Char := fmtNamedAux name s
 def sourceStr (s : ArgSpec) : List Char :=
   fmtNamed (makerName s) (signatureStr s) (shortSignatureStr s) (defTemplate ++ "    ".toList ++ bodyTemplate) ++ ['\n']
 
+/-! ### part (c): `Timer.labels` — late labelling of a timer on a labelled parent
+
+`with HISTOGRAM.time() as t: …; t.labels('a')`: a Timer object is `(_metric, _callback_name)` (plus `_start`, which
+for the Timers of this part — one per `with` block, one per decorated call — is written once by `__enter__` and read
+once by `__exit__`, hence kept local as in mode `fresh` of part (a)).  `Timer.labels(*args, **kw)` re-binds `_metric`
+of THAT object to `self._metric.labels(*args, **kw)` and returns `None`; `__exit__` calls
+`getattr(self._metric, self._callback_name)(duration)` on whatever `_metric` is then: `observe`/`set` start with
+`_raise_if_not_observable()`, so on a labelled parent that was never labelled the `with` statement raises `ValueError`
+out of `__exit__` — after the body ran: a value the body returned is lost, an exception the body raised is replaced
+(it survives only as `__context__`).  `Timer.__call__` enters `self._new_timer()`, a NEW object built from the
+decorator-level Timer's `_metric` as it is at call time; the decorated function cannot reach that object (the `with`
+has no `as`), but anyone can call `labels()` on the decorator-level Timer: it re-binds all LATER calls.
+
+`MetricWrapperBase.labels` is modelled as far as Timer needs it (which child, which calls raise `ValueError`); label
+names and values are numbers (`str()` of the real values is applied by the harness). -/
+
+/-- what `Timer._metric` can refer to -/
+inductive MRef
+  | plain (m : Nat)                        -- a metric without label names: observable
+  | parent (m : Nat) (names : List Nat)    -- a labelled parent: not observable (`names ≠ []`)
+  | child (m : Nat) (vals : List Nat)      -- a labelled child: observable
+deriving DecidableEq, Repr
+
+/-- `_is_observable()`: `not self._labelnames or (self._labelnames and self._labelvalues)` -/
+def MRef.observable : MRef → Bool
+  | .plain _ => true
+  | .parent _ names => names.isEmpty
+  | .child _ _ => true
+
+/-- arguments of a `labels(*args, **kw)` call -/
+structure LArgs where
+  pos : List Nat
+  kw : List (Nat × Nat)
+deriving DecidableEq, Repr
+
+def lookN (kw : List (Nat × Nat)) (n : Nat) : Nat :=
+  match kw with
+  | [] => 0
+  | (k, v) :: r => if k = n then v else lookN r n
+
+/-- `metric.labels(*labelvalues, **labelkwargs)`: every refusal is `ValueError` — no label names; already a child
+("can not chain calls to .labels()"); both kinds of arguments; wrong names; wrong count -/
+def metricLabels : MRef → LArgs → Except PyErr MRef
+  | .plain _, _ => .error .valueError
+  | .child _ _, _ => .error .valueError
+  | .parent m names, a =>
+    if names.isEmpty then .error .valueError
+    else if !a.pos.isEmpty && !a.kw.isEmpty then .error .valueError
+    else if !a.kw.isEmpty then
+      -- `sorted(labelkwargs) != sorted(self._labelnames)`; keyword names of one call are distinct
+      if a.kw.length = names.length && names.all (fun n => (a.kw.map (·.1)).contains n)
+      then .ok (.child m (names.map (lookN a.kw))) else .error .valueError
+    else if a.pos.length = names.length then .ok (.child m a.pos) else .error .valueError
+
+structure TimerObj where
+  metric : MRef
+  cb : TimeKind
+deriving DecidableEq, Repr
+
+structure LObs where
+  ref : MRef
+  kind : TimeKind
+  dur : Int
+deriving DecidableEq, Repr
+
+structure LSt where
+  clock : Clock
+  /-- callback invocations that went through, newest first -/
+  obs : List LObs
+  /-- the heap of Timer objects -/
+  timers : Nat → TimerObj
+  /-- next unused Timer object id -/
+  next : Nat
+  /-- what each block / decorated call handed its caller, newest first -/
+  log : List Outcome
+
+/-- an exception object the library creates (scripted exceptions have ids ≥ 1) -/
+def libValueError : Exc := ⟨0, .valueError⟩
+
+/-- `Timer.labels(self, *args, **kw)`: `self._metric = self._metric.labels(*args, **kw)` as the source spells it now
+(which arguments are forwarded, whether the result is stored on `self`, what is returned) -/
+def timerLabels (tid : Nat) (a : LArgs) (s : LSt) : Outcome × LSt :=
+  let fwd : LArgs := ⟨if timerLabelsForwardsArgs then a.pos else [], if timerLabelsForwardsKw then a.kw else []⟩
+  match metricLabels (s.timers tid).metric fwd with
+  | .error _ => (.raise libValueError, s)
+  | .ok c =>
+    (.ret noneVal,
+     if timerLabelsRebindsSelf then { s with timers := upd s.timers tid { s.timers tid with metric := c } } else s)
+
+/-- `Timer.__exit__` of a Timer nobody else enters: `callback = getattr(self._metric, self._callback_name)`;
+`callback(duration)` — raising `ValueError` when `_metric` is not observable -/
+def labelledExit (tid : Nat) (start : Int) (rb : Outcome × LSt) : Outcome × LSt :=
+  let s3 : LSt := { rb.2 with clock := rb.2.clock.tick.2 }
+  let d := duration rb.2.clock.tick.1 start
+  let t := rb.2.timers tid
+  if whenHolds timerCallbackWhen rb.1.raised then
+    if t.metric.observable then (suppress timerExitSuppresses rb.1, { s3 with obs := ⟨t.metric, t.cb, d⟩ :: s3.obs })
+    else (.raise libValueError, s3)
+  else (suppress timerExitSuppresses rb.1, s3)
+
+/-- `with r.time() as t: body(t)`: `Timer(r, cb)` is a new object, `__enter__` returns it -/
+def withTime (r : MRef) (k : TimeKind) (body : Nat → LSt → Outcome × LSt) (s : LSt) : Outcome × LSt :=
+  let s1 : LSt := { s with next := s.next + 1, timers := upd s.timers s.next ⟨r, k⟩, clock := s.clock.tick.2 }
+  labelledExit s.next s.clock.tick.1 (body s.next s1)
+
+/-- a call of a function decorated with Timer object `d`: `with self._new_timer(): return func(…)` -/
+def callDeco (d : Nat) (body : LSt → Outcome × LSt) (s : LSt) : Outcome × LSt :=
+  if timerCallFresh && newTimerIsNew then
+    let s1 : LSt := { s with next := s.next + 1, timers := upd s.timers s.next (s.timers d), clock := s.clock.tick.2 }
+    labelledExit s.next s.clock.tick.1 (body s1)
+  else labelledExit d s.clock.tick.1 (body { s with clock := s.clock.tick.2 })
+
+inductive LHead
+  | withTime (r : MRef) (k : TimeKind)    -- `with r.time() as t:`
+  | callDeco (d : Nat)                    -- `f()` with `f` decorated by Timer object `d`
+deriving DecidableEq, Repr
+
+mutual
+  inductive LStmt
+    /-- `t.labels(…)` on the Timer bound by the `up`-th enclosing `with … as t` (0 = innermost) -/
+    | labels (up : Nat) (a : LArgs)
+    /-- `T.labels(…)` on the decorator-level Timer object `d` -/
+    | labelsDeco (d : Nat) (a : LArgs)
+    /-- a timed block / decorated call whose body runs `body` and then returns or raises `o`;
+    `swallow`: wrapped in `try: … except BaseException: pass` -/
+    | block (hd : LHead) (body : LProg) (o : Outcome) (swallow : Bool)
+  inductive LProg
+    | nil
+    | cons (s : LStmt) (p : LProg)
+end
+
+mutual
+  /-- `env`: Timer objects bound by the enclosing `with … as t` blocks, innermost first -/
+  def execStmt (env : List Nat) : LStmt → LSt → Outcome × LSt
+    | .labels up a, s =>
+      match env[up]? with
+      | some tid => timerLabels tid a s
+      | none => (.raise ⟨0, .exception⟩, s)     -- NameError: not generated
+    | .labelsDeco d a, s => timerLabels d a s
+    | .block hd body o sw, s =>
+      let r := match hd with
+        | .withTime r k => withTime r k (fun tid => execProg (tid :: env) body o) s
+        | .callDeco d => callDeco d (execProg env body o) s
+      let s' : LSt := { r.2 with log := r.1 :: r.2.log }
+      if sw then (.ret noneVal, s') else (r.1, s')
+  /-- statements in sequence, then return / raise `o`; a statement that raises ends the sequence -/
+  def execProg (env : List Nat) : LProg → Outcome → LSt → Outcome × LSt
+    | .nil, o, s => (o, s)
+    | .cons st p, o, s =>
+      let r := execStmt env st s
+      if r.1.raised then r else execProg env p o r.2
+end
+
 end PromVerif.Model.Wrappers
